@@ -28,6 +28,7 @@ def run(ctx):
     rules(ctx, prog)
     ctx.floor('R07.2', 4)
     ctx.floor('R07.3', 4)
+    ctx.floor('R07.4', 1)
 
 
 def rules(ctx, prog, rid=None):
@@ -157,3 +158,23 @@ def rules(ctx, prog, rid=None):
         okr = s.k == 'BinaryOperator' and s.op == '&' and s.children[1].strip(casts=True).value == 0xff and \
             s.children[0].strip(casts=True).k == 'BinaryOperator' and s.children[0].strip(casts=True).op == '-'
     ctx.check(okr, R('R07.3'), M + 'calc_chksum#reduce', f.loc, 'result = (word sum − carries) & 0xff')
+    # R07.4 the f8String overload is a pure forwarder to the routine above: (text start, size, offset, len) in that order, nothing added
+    so = [g for g in prog.fns(M + 'calc_chksum') if 'basic_string' in g.sig or 'f8String' in g.sig]
+    ctx.need(len(so) == 1, 'calc_chksum(const f8String&, ...) not found')
+    g = so[0]
+    ctx.saw(g)
+    rr = [n for n in g.all_nodes() if n.k == 'ReturnStmt' and n.children]
+    fw = [c for c in g.calls() if c.callee_q == f.q and c.callee.get('sig') == f.sig]
+    okf = False
+    why = 'the string overload does not forward to calc_chksum(const char*, size_t, unsigned, int) at all (a second implementation of the sum)'
+    if len(rr) == 1 and len(fw) == 1 and rr[0].children[0].strip(casts=True) == fw[0]:
+        a = fw[0].args
+        p0, p1, p2 = g.param_ids[0], g.param_ids[1], g.param_ids[2]
+        a0 = a[0].strip(casts=True)
+        starts = a0.is_call and a0.callee is not None and a0.callee.get('n') in ('c_str', 'data') and a0.obj is not None and q.refers_to_decl(a0.obj, p0)
+        a1 = a[1].strip(casts=True)
+        sized = a1.is_call and a1.callee is not None and a1.callee.get('n') in ('size', 'length') and a1.obj is not None and q.refers_to_decl(a1.obj, p0)
+        okf = starts and sized and len(a) >= 4 and q.refers_to_decl(a[2], p1) and q.refers_to_decl(a[3], p2)
+        why = ('the string overload forwards `%s`: the character routine takes its size argument as the size of the buffer it is handed and applies the offset itself, '
+               'so anything but (text start, size(), offset, len) makes it sum the wrong range (bytes past the end of the string)' % fw[0].text())
+    ctx.check(okf, R('R07.4'), M + 'calc_chksum/string#forwards', g.loc, 'calc_chksum(f8String, offset, len) = calc_chksum(text start, size(), offset, len)', why)
